@@ -261,3 +261,9 @@ m("c19-atomic-evaluation-counter-inside-the-model", "C19", 0, [("include/gm2calc
    "double calculate_amu_1loop(const MSSMNoFV_onshell& model)\n{\n   return amu1LChi0(model) + amu1LChipm(model);\n}",
    "double calculate_amu_1loop(const MSSMNoFV_onshell& model)\n{\n   model.evaluation_counter.n.fetch_add(1, std::memory_order_relaxed);\n   return amu1LChi0(model) + amu1LChipm(model);\n}")],
   "an atomic statistics counter INSIDE the model object, incremented by a const evaluation: the object's byte image changes, but no getter, printed text or result does, and it is thread-safe: property holds")
+
+# ----------------------------------------------------------------------------- property-preserving changes given as patch files
+M.append({"id": "c17-bounded-model-pool-correct", "prop": "C17", "expect": 0, "patch": __import__("os").path.join(__import__("os").path.dirname(__import__("os").path.abspath(__file__)), "patches", "c17-bounded-model-pool-correct.diff"),
+          "note": "the per-thread pool of at most 8 recycled model objects behind gm2calc_mssmnofv_new/free of seeded change c17i with its defect repaired (null handles are not pooled): models stay alive after free by design, bounded; property holds"})
+M.append({"id": "c19-bounded-model-pool-correct", "prop": "C19", "expect": 0, "patch": __import__("os").path.join(__import__("os").path.dirname(__import__("os").path.abspath(__file__)), "patches", "c17-bounded-model-pool-correct.diff"),
+          "note": "the same thread_local pool seen by the thread-safety check: no shared state, recycled objects are reset: property holds"})
